@@ -170,6 +170,11 @@ class Case:
         self.verdicts = dict(v.split(':', 1) for v in (parts[1].split() if len(parts) > 1 else []) if ':' in v)
         self.tags = set(t for t in (parts[2].strip().split(',') if len(parts) > 2 else []) if t)
 
+    @property
+    def bad(self):
+        """the model could not parse the request or the implementation's answer: no verdict"""
+        return self.model.startswith('bad-op') or self.verdicts.get('oracle') == 'unparsed' 
+
 
 def evaluate(lines):
     lines = [l for l in lines if ' => ' in l]
@@ -309,14 +314,14 @@ def check(pid, tier, seed):
     for c in relevant:
         h = hashlib.sha1(c.req.encode()).hexdigest()
         v = c.verdicts.get(oracle, 'missing')
-        failing = v in ('FAILS', 'missing') or any(c.verdicts.get(o) == 'FAILS' for o in cfg.get('also', []))
+        failing = (not c.bad) and (v in ('FAILS', 'missing') or any(c.verdicts.get(o) == 'FAILS' for o in cfg.get('also', [])))
         if failing:
             k = is_known(c)
             if k: known_hits.setdefault(k['id'], (k, c))
             else: fails.append(c)
         a, b = project(c)
         req = cfg.get('require')
-        if a != b or (req and any(k in c.verdicts and c.verdicts[k] != v for k, v in req.items())):
+        if a != b or c.bad or (req and any(k in c.verdicts and c.verdicts[k] != v for k, v in req.items())):
             disagreements.append(c)
         for t in c.tags: dist[t] += 1
         dist['verdict:' + v] += 1
@@ -341,7 +346,7 @@ def check(pid, tier, seed):
             nb = neighbours(c.req, seed)
             cs = execute(nb); searched += len(cs)
             for d in cs:
-                if (d.verdicts.get(oracle) == 'FAILS') and not is_known(d): fails.append(d)
+                if (d.verdicts.get(oracle) == 'FAILS') and not d.bad and not is_known(d): fails.append(d)
             if fails: break
         if not fails:
             # more seeded cases (two further seeds of this tier's generators; the thorough tier is the deep search)
@@ -350,7 +355,7 @@ def check(pid, tier, seed):
                     if callable(g): continue
                     rc, out = run_harness(g)
                     cs = evaluate(out.splitlines()); searched += len(cs)
-                    fails += [d for d in cs if d.verdicts.get(oracle) == 'FAILS' and not is_known(d)]
+                    fails += [d for d in cs if d.verdicts.get(oracle) == 'FAILS' and not d.bad and not is_known(d)]
                     if fails: break
                 if fails: break
     # 4. proof layer problems
@@ -361,7 +366,7 @@ def check(pid, tier, seed):
         c = fails[0]
         def still_fails(req):
             cs = execute([req])
-            return bool(cs) and cs[0].verdicts.get(oracle) == 'FAILS' and not is_known(cs[0])
+            return bool(cs) and cs[0].verdicts.get(oracle) == 'FAILS' and not cs[0].bad and not is_known(cs[0])
         small = shrink(c.req, still_fails) if cfg.get('shrink', True) else c.req
         sc = execute([small])[0]
         path = write_replay(pid, seed, 0, {
